@@ -1,2 +1,149 @@
-(** C09 — placeholder while the proofs are being built (replaced below). *)
-From Verif Require Import Lib.Base Dict.Common Dict.Heap Dict.Spec.
+(** C09 — Deb822 mappings stay ordered, case-insensitive, case-preserving in any history.
+    Only statements; every proof is [exact <lemma>].
+
+    Model: Dict/Heap.v (pointer-level: one heap of LinkedListNode cells, LinkedList, OrderedSet,
+    Deb822Dict, the paragraph objects of a history).  Spec: Dict/Spec.v (association list).
+    Check: Dict/Check.v ([agree] runs [model_frames]; [holds] is [holds_frames] over [ref_step]).
+    Proofs: Dict/ProofsLL.v (linked list), ProofsOS.v (OrderedSet), ProofsD.v (Deb822Dict),
+    ProofsW.v (worlds and histories).
+
+    [lower] (= str.lower) is universally quantified: nothing is assumed about it.
+
+    Domain of the history theorems, as boolean predicates on the INPUTS (Dict/Check.v):
+    - [start_ok s]: the initial values pass Deb822.validate_input and, for a parsed start, the
+      text parses to the listed fields (otherwise the constructor raises and there is no paragraph);
+    - [hist_ok lower W xs]: every dump+reparse of the history is applied to a paragraph on which
+      dump-then-parse is the identity (evaluated on the reference run).  Everything else is
+      unrestricted: any keys, any values (multi-line and invalid ones included), any object
+      indices (missing ones included), any length. *)
+From Verif Require Import Lib.Base Lib.PyStr Gen.PyChars Dict.Common Dict.Heap Dict.Spec Dict.Check
+  Dict.ProofsLL Dict.ProofsOS Dict.ProofsD Dict.ProofsW Dict.ProofsParse.
+
+(** 1. dll_wf_preserved.  The representation invariant [wf_world] — for every paragraph object:
+       the cells reachable from head form a doubly linked list whose prev/next mirror the id list,
+       ids are distinct and allocated, head/tail are its ends, size its length, the table maps
+       exactly the lowered keys to the node holding that key, table and value dict have no
+       duplicate key, all values passed validate_input; different objects own disjoint cells —
+       holds after every history (successful and failing operations alike). *)
+Theorem C09_dll_wf_preserved :
+  forall lower s xs,
+    start_ok s = true -> hist_ok lower (s_start lower s) xs = true ->
+    wf_world lower (run lower (snd (start_world lower s)) xs).
+Proof. exact wf_preserved. Qed.
+
+(** ... and it is preserved by every single operation from ANY well-formed world (not only
+    those reachable from the three starts), where the operation also does what the reference
+    does: same result or exception kind, and the abstraction commutes. *)
+Theorem C09_step_refines :
+  forall lower w Cs x,
+    W_rep lower w Cs -> reparse_ok (map its Cs) x = true ->
+    exists Cs',
+      W_rep lower (snd (step lower w x)) Cs'
+      /\ ref_step lower (map its Cs) x (fst (step lower w x)) = (fst (step lower w x), map its Cs').
+Proof. exact step_sim. Qed.
+
+(** In a well-formed world every walk from a head terminates and finds only live cells:
+    the model's "dangling id" / "cycle" results (OtherError / OutOfFuel) cannot occur, and
+    list(d.items()) of every paragraph is the abstract content. *)
+Theorem C09_wf_observable :
+  forall lower w Cs,
+    W_rep lower w Cs ->
+    map (obj_items lower w) (w_objs w) = map (fun d => Ok d) (map its Cs).
+Proof. exact W_rep_items. Qed.
+
+(** 2. dict_refines_assoc.  For every start (empty, dict-initialised, parsed) and every history,
+       the trace of the pointer-level model — result or exception kind of every operation,
+       list(d), values, len(d), k in d for every probed key, d.dump() of the paragraph operated
+       on, and the items of EVERY paragraph after every operation — is exactly what the
+       association-list reference prescribes, as judged by the function [holds] is made of. *)
+Theorem C09_dict_refines_assoc :
+  forall lower alpha s xs,
+    start_ok s = true -> hist_ok lower (s_start lower s) xs = true ->
+    holds_frames lower alpha s xs (model_frames lower alpha s xs) = true.
+Proof. exact model_refines. Qed.
+
+(** 3. failed_op_unchanged.  After any history, an operation that raises (KeyError on a missing
+       key, ValueError on re-ordering relative to itself or on an invalid value, ...) leaves every
+       paragraph of the world unchanged. *)
+Theorem C09_failed_op_unchanged :
+  forall lower s xs x e,
+    start_ok s = true -> hist_ok lower (s_start lower s) (xs ++ [x]) = true ->
+    let w := run lower (snd (start_world lower s)) xs in
+    fst (step lower w x) = RErr e ->
+    map (obj_items lower (snd (step lower w x))) (w_objs (snd (step lower w x)))
+    = map (obj_items lower w) (w_objs w).
+Proof. exact failed_op_unchanged. Qed.
+
+(** 4. The bridge to the correspondence check, for every case whatsoever: if the case is in the
+       declared domain and the model reproduces what the implementation did (together: [agree],
+       Dict/Check.v), then the property holds of what the implementation did ([holds]). *)
+Theorem C09_agree_implies_holds :
+  forall c, agree c = true -> holds c = true.
+Proof. exact agree_implies_holds. Qed.
+
+(** 5. The dump/parse cycle.  On a paragraph whose keys are field names (non-empty, no ':',
+       white space or line boundary, not starting with '#') and whose values are single lines
+       without surrounding white space, dump-then-parse is the identity ... *)
+Theorem C09_parse_dump_identity :
+  forall d, forallb simple_kv d = true -> parse_text (s_dump d) = d.
+Proof. exact parse_dump_simple. Qed.
+
+(** ... hence every history over such keys and values is in the domain, whatever it does
+    (any interleaving of the fourteen operations on any objects, re-parses included) ... *)
+Theorem C09_simple_histories_in_domain :
+  forall lower s xs,
+    start_simple s = true -> forallb op_simple xs = true ->
+    hist_ok lower (s_start lower s) xs = true.
+Proof. exact hist_ok_simple. Qed.
+
+(** ... and theorem 2 holds for it with hypotheses on the keys and values only. *)
+Theorem C09_dict_refines_assoc_simple :
+  forall lower alpha s xs,
+    start_ok s = true -> start_simple s = true -> forallb op_simple xs = true ->
+    holds_frames lower alpha s xs (model_frames lower alpha s xs) = true.
+Proof. exact model_refines_simple. Qed.
+
+(** Non-vacuity: a dict-initialised start with case variants, a history with every kind of
+    operation (a failing re-order, a missing key, an invalid value, a copy and a dump+reparse
+    included) meets the hypotheses; the final contents are as expected. *)
+Example C09_nonvacuous :
+  let A := [65]%N in let a := [97]%N in let B := [66]%N in let b := [98]%N in
+  let Cc := [67; 99]%N in let D := [68]%N in
+  let one := [49]%N in let two := [50]%N in
+  let s := SDict [(A, one); (b, two); (Cc, [120; 32; 121]%N)] in
+  let xs := [OSet 0 a two; OSet 0 D [49; 10; 32; 50]%N; OSet 0 D [49; 10]%N; OFirst 0 B;
+             OBefore 0 D a; OAfter 0 Cc Cc; OLast 0 [90]%N; ODel 0 [99; 67]%N; OCopy 0; OSort 1;
+             OReparse 1; OGet 2 [100]%N; OBefore 1 A b; ODump 0; OSet 7 a a] in
+  start_ok s = true
+  /\ hist_ok ascii_lower (s_start ascii_lower s) (xs ++ [OLast 0 [90]%N]) = true
+  /\ map (obj_items ascii_lower (run ascii_lower (snd (start_world ascii_lower s)) xs))
+         (w_objs (run ascii_lower (snd (start_world ascii_lower s)) xs))
+     = [Ok [(b, two); (D, [49; 10; 32; 50]%N); (A, two)];
+        Ok [(A, two); (b, two); (D, [49; 10; 32; 50]%N)];
+        Ok [(A, two); (b, two); (D, [49; 10; 32; 50]%N)]]
+  /\ fst (step ascii_lower (run ascii_lower (snd (start_world ascii_lower s)) xs) (OLast 0 [90]%N))
+     = RErr KeyError.
+Proof. vm_compute. repeat split. Qed.
+
+(** Non-vacuity of the simple domain: a parsed start and a history with re-parses. *)
+Example C09_nonvacuous_simple :
+  let A := [65]%N in let a := [97]%N in let b := [98]%N in
+  let text := [65; 58; 32; 49; 10; 98; 58; 10]%N in       (* "A: 1\nb:\n" *)
+  let s := SParsed text [(A, [49]%N); (b, [])] in
+  let xs := [OSet 0 a [120; 32; 121]%N; OReparse 0; OFirst 1 b; OReparse 1; OSort 2; OCopy 2] in
+  start_ok s = true /\ start_simple s = true /\ forallb op_simple xs = true
+  /\ map (obj_items ascii_lower (run ascii_lower (snd (start_world ascii_lower s)) xs))
+         (w_objs (run ascii_lower (snd (start_world ascii_lower s)) xs))
+     = [Ok [(A, [120; 32; 121]%N); (b, [])]; Ok [(b, []); (A, [120; 32; 121]%N)];
+        Ok [(A, [120; 32; 121]%N); (b, [])]; Ok [(A, [120; 32; 121]%N); (b, [])]].
+Proof. vm_compute. repeat split. Qed.
+
+Print Assumptions C09_dll_wf_preserved.
+Print Assumptions C09_step_refines.
+Print Assumptions C09_wf_observable.
+Print Assumptions C09_dict_refines_assoc.
+Print Assumptions C09_failed_op_unchanged.
+Print Assumptions C09_agree_implies_holds.
+Print Assumptions C09_parse_dump_identity.
+Print Assumptions C09_simple_histories_in_domain.
+Print Assumptions C09_dict_refines_assoc_simple.
